@@ -703,7 +703,7 @@ func renderAgg(groups map[string][]aggRow, flags string) string {
 	return s + flags
 }
 
-func (h *history) runAgg(q aggQuery) (string, map[string][]aggRow) {
+func (h *history) runAgg(q aggQuery, raw map[int][]row) (string, map[string][]aggRow) {
 	var res []engine.VerifSeries
 	var err error
 	perr := hx.Safe(func() { res, err = h.sh.Query(q.sql(), qlFields, tagKeys, 0) })
@@ -756,6 +756,10 @@ func (h *history) runAgg(q aggQuery) (string, map[string][]aggRow) {
 			for ci, cl := range q.calls {
 				x := vals[ci+1]
 				switch {
+				case x == nil && cl.f == "count" && q.interval > 0 && q.fill == "null":
+					// fill(null) turns an empty count into 0 except in some edge rows of a
+					// group (FillTransform): null and 0 are not distinguished here
+					ar.vals = append(ar.vals, aggCell{"0", true})
 				case x == nil:
 					ar.vals = append(ar.vals, aggCell{"_", true})
 				case cl.f == "count":
@@ -779,7 +783,20 @@ func (h *history) runAgg(q aggQuery) (string, map[string][]aggRow) {
 			groups[g] = append(groups[g], ar)
 		}
 	}
-	return renderAgg(groups, flags), groups
+	// the spec is checked on the answer as it came; ties are canonicalised for the model diff
+	orig := map[string][]aggRow{}
+	for g, rows := range groups {
+		cp := make([]aggRow, len(rows))
+		for i, r := range rows {
+			cp[i] = r
+			cp[i].vals = append([]aggCell(nil), r.vals...)
+		}
+		orig[g] = cp
+	}
+	if raw != nil {
+		canonTies(q, groups, raw)
+	}
+	return renderAgg(groups, flags), orig
 }
 
 // rawRows runs the plain select that corresponds to (lo,hi,filter): every field, per series.
@@ -934,6 +951,100 @@ func applyFn(f, col string, pts []pt) specCell {
 		sc.times[bt] = true
 	}
 	return sc
+}
+
+// groupPoints collects, per (group, bucket) and call, the points (time, value) of the rows of
+// the plain select that the call ranges over.
+type gbKey struct {
+	g string
+	b int
+}
+
+func groupPoints(q aggQuery, raw map[int][]row) map[gbKey][][]pt {
+	pts := map[gbKey][][]pt{}
+	for s, rs := range raw {
+		g := groupOf(q.grp, s)
+		for _, r := range rs {
+			if r.t < q.lo || r.t > q.hi || !passFilter(r, q.fcol, q.fop, q.fconst) {
+				continue
+			}
+			b := 0
+			if q.interval > 0 {
+				b = window(r.t, q.interval)
+			}
+			k := gbKey{g, b}
+			if pts[k] == nil {
+				pts[k] = make([][]pt, len(q.calls))
+			}
+			for ci, cl := range q.calls {
+				c := r.cs[colIdx(cl.col)]
+				if c.ok {
+					pts[k][ci] = append(pts[k][ci], pt{r.t, c.v})
+				}
+			}
+		}
+	}
+	return pts
+}
+
+// canonTies replaces what InfluxQL leaves open by a marker, on the basis of the rows of the
+// plain select: the value of first/last when several rows of the group share the extreme time
+// with different values ("~"), and the point time of a lone min/max when the extreme value
+// occurs at several times ("@~"). The Lean driver applies the same rule to its own rows.
+func canonTies(q aggQuery, groups map[string][]aggRow, raw map[int][]row) {
+	pts := groupPoints(q, raw)
+	for g, rows := range groups {
+		for ri := range rows {
+			r := &rows[ri]
+			exp := pts[gbKey{g, r.bt}]
+			if exp == nil || len(r.vals) != len(q.calls) {
+				continue
+			}
+			for ci, cl := range q.calls {
+				ps := exp[ci]
+				if len(ps) == 0 || r.vals[ci].null {
+					continue
+				}
+				switch cl.f {
+				case "first", "last":
+					bt := ps[0].t
+					for _, p := range ps {
+						if (cl.f == "first" && p.t < bt) || (cl.f == "last" && p.t > bt) {
+							bt = p.t
+						}
+					}
+					vals := map[int64]bool{}
+					for _, p := range ps {
+						if p.t == bt {
+							vals[p.v] = true
+						}
+					}
+					if len(vals) > 1 {
+						r.vals[ci].text = "~"
+					}
+				case "min", "max":
+					if r.at == "" {
+						continue
+					}
+					best := ps[0].v
+					for _, p := range ps {
+						if (cl.f == "min" && p.v < best) || (cl.f == "max" && p.v > best) {
+							best = p.v
+						}
+					}
+					times := map[int]bool{}
+					for _, p := range ps {
+						if p.v == best {
+							times[p.t] = true
+						}
+					}
+					if len(times) > 1 {
+						r.at = "@~"
+					}
+				}
+			}
+		}
+	}
 }
 
 // checkSpec compares the aggregate answer with the function applied to raw (per series rows
@@ -1169,7 +1280,7 @@ func (h *history) checkpoint(nq int) {
 				raw = rr
 			}
 		}
-		ans, got := h.runAgg(q)
+		ans, got := h.runAgg(q, raw)
 		line := c.Emit(q.opText(), ans)
 		if c.Arg("debug", "") != "" {
 			fmt.Fprintf(os.Stderr, "C09DBG %d %s\n    -> %s\n", line, q.sql(), ans)
@@ -1371,7 +1482,7 @@ func runReplay(c *hx.Ctx, path string) error {
 					raw = rr
 				}
 			}
-			ans, got := h.runAgg(q)
+			ans, got := h.runAgg(q, raw)
 			line := c.Emit(q.opText(), ans)
 			c.Case(q.opText(), true)
 			fmt.Fprintf(os.Stderr, "C09 replay: %s\n    -> %s\n", q.sql(), ans)
@@ -1476,7 +1587,9 @@ func Run(c *hx.Ctx) error {
 		return runReplay(c, c.Replay)
 	}
 	n := c.Budget(40, 900)
-	r := hx.NewRng(c.Seed)
+	// hx.NewRng(s+1) is hx.NewRng(s) advanced by one step: hash the seed first so that
+	// different seeds give unrelated histories
+	r := hx.NewRng(hx.NewRng(c.Seed).U64() ^ 0xC09C09C09)
 	only := -1
 	if v := c.Arg("only", ""); v != "" {
 		only, _ = strconv.Atoi(v) // replay one history of the run (same seed)
